@@ -424,6 +424,10 @@ func RunSub(name string) {
 		RunSubC17(name)
 		return
 	}
+	if strings.HasPrefix(name, "c08cyc|") {
+		RunSubC08Cyc(name)
+		return
+	}
 	if strings.HasPrefix(name, "c07|") {
 		RunSubC07(name)
 		return
